@@ -2,18 +2,19 @@ SPECIFICATION Spec
 CONSTANTS
   Cases = {0, 1, 2}
   MaxWorkers = 2
-  MaxCrash = 2
+  MaxCrash = 1
   MaxInc = 3
-  FailSets <- MCAllFailSets
+  FailSets <- MCFewFailSets
   MustKinds <- MCAllKinds
   ResultFirst = TRUE
-  OwnCaseNumber = FALSE
+  OwnCaseNumber = TRUE
   ParserStripsParens = TRUE
-  Transient = FALSE
+  Transient = TRUE
   CrashInHeader = FALSE
 INVARIANT TypeOK
 INVARIANT C18_RestartCompletes
 INVARIANT C18_ExactlyOneResult
 INVARIANT C18_OwnIdentity
+INVARIANT MarkerImpliesResult
 PROPERTY C18_NoRedo
 CHECK_DEADLOCK FALSE
